@@ -12,11 +12,12 @@ props = {}
 for l in open('/verif/properties.jsonl'):
     p = json.loads(l); props[p['id']] = p
 ids = [i for i in sorted(props) if i != 'C16']
+if len(sys.argv) > 2: ids = [i for i in ids if i in sys.argv[2:]]  # optional: only these properties
 for i in ids:
     d = f'{root}/{i}'; os.makedirs(d, exist_ok=True)
     json.dump(props[i], open(d + '/property.json', 'w'), indent=1, ensure_ascii=False)
     tried = []
-    for s in [i] + [i + c for c in 'bcdefghij']:
+    for s in [i] + [i + c for c in 'bcdefghijklm']:
         m = f'/verif/seeded/{s}/meta.json'
         if os.path.exists(m): tried.append('- ' + json.load(open(m))['change'])
     if i == 'C14': tried.append('- (do NOT touch json_encode / json_decode at all: pick serialize/unserialize, base64, urlencode/rawurlencode/urldecode, bin2hex/hex2bin, md5/hash or the protobuf wire codec)')
